@@ -1073,6 +1073,15 @@ class SymExec:
         return result
 
     def compare(self, op, l, r, node):
+        t = self._compare(op, l, r, node)
+        # negative operators are represented as the negation of the positive one, so that
+        # `x is None` and `x is not None` (== / !=, in / not in) share one assumption per path
+        if isinstance(t, tuple) and t and t[0] == 'cmp' and t[1] in ('is not', '!=', 'not in'):
+            pos = {'is not': 'is', '!=': '==', 'not in': 'in'}[t[1]]
+            return ('not', ('cmp', pos, t[2], t[3]))
+        return t
+
+    def _compare(self, op, l, r, node):
         fl, fr_ = freeze(l), freeze(r)
         if is_const(fl) and is_const(fr_):
             a, b = fl[1], fr_[1]
